@@ -26,6 +26,10 @@ Lemma calls_new_ok : calls_new =
   ["Default::default"; "AtomicU16::new"; "AtomicU16::new"; "enqueue"].
 Proof. reflexivity. Qed.
 
+Lemma calls_default_ok : calls_default =
+  ["Self::new"].
+Proof. reflexivity. Qed.
+
 Lemma calls_send_ok : calls_send =
   ["dequeue"; ".get"; "enqueue"].
 Proof. reflexivity. Qed.
